@@ -70,8 +70,20 @@ THEOREMS = [
     "Pest.Calc.encodedTree_spec",
     "Pest.Calc.build_congr",
     "Pest.Calc.build_total",
-    # ---- JSON (see Props/C17.lean for what is OPEN)
+    # ---- JSON, stage 1 (tokens), both bundled grammars; stages 2-4 are OPEN (Props/C17.lean)
     "Pest.C17.render_length",
+    "Pest.C17.examplesJson_number",
+    "Pest.C17.examplesJson_string_rules",
+    "Pest.C17.testsJson_number_rules",
+    "Pest.C17.testsJson_string_rules",
+    "Pest.C17.json_number_accepts",
+    "Pest.C17.json_string_accepts",
+    "Pest.C17.json_number_accepts_tests",
+    "Pest.C17.json_string_accepts_tests",
+    "Pest.Json.ev_exNumber",
+    "Pest.Json.ev_exString",
+    "Pest.Json.ev_tNumber",
+    "Pest.Json.ev_tString",
 ]
 
 MODES = ("interp", "opt", "gen", "optgen")
@@ -146,13 +158,25 @@ def _scratch_driver(lines: list[str], shards: int) -> list[str]:
 
 
 def lean(lines: list[str]) -> list[str]:
-    """answers of the Lean model to K/KW/J request lines"""
+    """answers of the Lean model to K/KW/J request lines (spread round-robin over the cores: the
+    specification runs `J accepts` / `J prefixes` dominate and come sorted by document length)"""
     if not lines:
         return []
-    shards = NCPU if len(lines) > 2000 else 1
+    heavy = sum(1 for ln in lines if ln.startswith(("J accepts", "J prefixes")))
+    shards = NCPU if (len(lines) > 2000 or heavy > 16) else 1
+    shards = max(1, min(shards, len(lines)))
+    # order[slot] = index of the request sent in that slot: a stride permutation, so that the contiguous
+    # chunks the drivers are given mix short and long documents
+    order = [i for k in range(shards) for i in range(k, len(lines), shards)]
+    permuted = [lines[i] for i in order]
     if _driver_mode() == "pestdriver":
-        return run_driver(lines, shards=shards)
-    return _scratch_driver(lines, shards)
+        got = run_driver(permuted, shards=shards)
+    else:
+        got = _scratch_driver(permuted, shards)
+    out = [""] * len(lines)
+    for slot, i in enumerate(order):
+        out[i] = got[slot]
+    return out
 
 
 # =====================================================================================
@@ -1590,7 +1614,10 @@ def run(out: Outcome) -> None:  # noqa: PLR0912, PLR0915
             seen = set()
             problems = sorted(problems, key=lambda p: len(p.get("text", "")))
             for p in problems:
-                key = (p.get("grammar"), None if kind == "calc" else p.get("mode"), p.get("what"), p.get("implementation"))
+                key = (p.get("grammar"), p.get("what"), p.get("implementation"))
+                p = {**p, "modes_affected": sorted({q.get("mode") for q in problems
+                                                    if (q.get("grammar"), q.get("what"), q.get("implementation")) == key
+                                                    and q.get("mode")})}
                 if key in seen:
                     continue
                 seen.add(key)
@@ -1655,7 +1682,9 @@ def run(out: Outcome) -> None:  # noqa: PLR0912, PLR0915
         "correspondence_mismatches": len(corr_mism),
         "direct_failures": len(calc_problems) + len(json_problems) + len(neg_problems),
         "lean_driver": _driver_mode() if lean_ok else "unavailable",
-        "json_theorems_open": ["json_accepts", "json_rejects_prefix", "json_number_accepts", "json_string_accepts"],
+        "json_theorems_proved": ["json_number_accepts", "json_string_accepts", "json_number_accepts_tests",
+                                 "json_string_accepts_tests"],
+        "json_theorems_open": ["json_value_accepts", "json_accepts", "json_rejects_prefix"],
         "phases_s": {"export": round(t_export, 1), "build_and_audit": round(t_proof, 1), "search": round(t_search, 1),
                      "correspondence_and_verdict": round(time.time() - t0 - t_export - t_proof - t_search, 1)},
     }
@@ -1678,8 +1707,11 @@ def run(out: Outcome) -> None:  # noqa: PLR0912, PLR0915
         "accept raw control characters U+0000–U+001F inside strings, examples/json/json.pest accepts a fraction without "
         "digits (`1.`), tests/grammars/json.pest accepts a scalar at top level (its `json` rule is SOI ~ value ~ EOI); every "
         "other text that is not RFC 8259 must be rejected in all modes",
-        "the JSON half rests on the failing-input search and on the executable L0 specification run on the regenerated "
-        "grammar terms; the Lean theorems json_accepts / json_rejects_prefix are stated but OPEN (Props/C17.lean)",
+        "JSON: proved in Lean for both regenerated grammars (all inputs, all states, unbounded): every RFC 8259 number "
+        "and every RFC 8259 string, in any spelling, is exactly one `number` / `string` token with the expected pair(s) "
+        "(stage 1).  Values, documents and prefix rejection (json_value_accepts, json_accepts, json_rejects_prefix) are "
+        "stated but OPEN (Props/C17.lean); that part rests on the failing-input search and on the executable L0 "
+        "specification run on the regenerated grammar terms",
         "Python's recursion limit is not modelled (documents nest at most 5–6 deep, expressions at most a few dozen)",
     ]
 
